@@ -115,8 +115,9 @@ def scenario(pre: Preempt, where: str, offset: int, variant: str, raising: bool)
         t2.start()
 
         def reg2() -> None:
-            cb.register(t2)
+            # logged at call time: the registration takes effect somewhere between call and return
             L('register 2')
+            cb.register(t2)
         helper = threading.Thread(target=reg2)
         helper.start()
         helper.join(0.02)            # blocks here if the monitor is parked while holding the lock
@@ -145,13 +146,19 @@ def scenario(pre: Preempt, where: str, offset: int, variant: str, raising: bool)
         pre.armed.set()
 
         def reg2() -> None:
-            cb.register(t2)
             L('register 2')
+            cb.register(t2)
         helper = threading.Thread(target=reg2)
         helper.start()
         reached = pre.at_point.wait(0.25)
-        cb.register(t1)              # may block while the parked thread holds the lock → do it in a thread
         L('register 1')
+        if reached:
+            # the parked thread may hold the lock: register thread 1 from a helper that may block until the resume
+            h1 = threading.Thread(target=lambda: cb.register(t1))
+            h1.start()
+            h1.join(0.02)
+        else:
+            cb.register(t1)
         time.sleep(0.003)
         if variant == 'die-in-gap':
             gates[2].set()
